@@ -413,7 +413,9 @@ def show_text(stats, unit, output_unit=None, stream=None, stripzeros=False,
         # Summarize the total time for each function
         for (fn, lineno, name), timings in stats_order:
             total_time = sum(t[2] for t in timings) * unit
-            if not stripzeros or total_time:
+            # Hide the same functions as the details do: those not run
+            total_hits = sum(t[1] for t in timings)
+            if not stripzeros or total_hits:
                 line = '%6.2f seconds - %s:%s - %s\n' % (total_time, fn, lineno, name)
                 stream.write(line)
 
